@@ -102,7 +102,8 @@ def _pre_addition(*tensors):
         mask_needed = mask_needed or mask_needed_ab
 
     if mask_needed:
-        legss = [tensor.get_legs(native=True) for tensor in tensors]
+        # legs in the order of stored data (all tensors share the same pending transpose at this point), matching hfs and _embed_tensor
+        legss = [tensor._replace(trans=None).get_legs(native=True) for tensor in tensors]
         ulegs = {n: legs_union(*(legs[n] for legs in legss)) for n in range(a.ndim_n)}
         hfs = tuple(ulegs[n].hf for n in range(a.ndim_n))
         tensors = [_embed_tensor(tensor, legs, ulegs) for tensor, legs in zip(tensors, legss)]
